@@ -574,6 +574,7 @@ pub fn replay_file(path: &str) -> ExitCode {
                 println!("NOT REPRODUCED: the history no longer kills the process");
                 return ExitCode::SUCCESS;
             }
+            crate::common::events_reset(std::env::var("VERIF_TRACE").is_ok());
             let res = pwlsim::run_scenario(&rep.scenario, Some(&rep.property));
             let got = match &rep.expected {
                 Some(e) => res
